@@ -97,7 +97,7 @@ impl Announcer {
         duration: time::Duration,
     ) -> ControlFlow<Success, Progress> {
         if node == self.local_node {
-            return ControlFlow::Continue(self.progress());
+            return self.finished();
         }
         self.to_sync.remove(&node);
         self.synced.insert(node, SyncStatus::Synced { duration });
